@@ -27,10 +27,15 @@ func vRunCase8(t *testing.T, c vCase) (msg string) {
 				if k.Cmp(big.NewInt(1)) == 0 {
 					continue
 				}
-				// every scalar twice in a row: the schedule must not depend on what an earlier call did either
-				for rep := 0; rep < 2; rep++ {
+				// every scalar twice in a row (the schedule must not depend on what an earlier call did either) and then once per
+				// way of constructing it (nor on how the scalar object was made)
+				variants := vScalarVariants(t, k)
+				for rep := 0; rep < 1+len(variants); rep++ {
 					e := newEl()
 					s := vScalarOf(t, k)
+					if rep >= 2 {
+						s = variants[rep-1]
+					}
 					field.VTrace = field.VTrace[:0]
 					field.VTraceOn = true
 					e.Multiply(s)
